@@ -13,7 +13,7 @@ CHECK = {'level': 'model_checking',
          'rekey (rotation API and deprecated API) / fail-over / restart on two real Cores sharing one store and one HA '
          'lock; after every step the active node reads everything back and writes under the newest term, the node that '
          'took over holds the keyring the active node had, a sealed node serves nothing, and a copy of the store '
-         'unseals on a new node with the currently valid shares. HA part N: every history (depth 3/4) that addresses a namespace with its own (3,3) Shamir seal (write, encryption-key rotation, share-less root rotation, share-based root rotation to (5,2) of THAT namespace) mixed with root-level writes / root rotation and every kind of leadership change: the node that takes over or restarts must complete the upgrade path, unseal the namespace with the shares its operator holds and read everything back. NS (Core level, per-namespace barrier): crash after every durable write and every single storage fault inside <ns>/sys/rotate, <ns>/sys/rotate/root and <ns>/sys/rotate/root/init+update, restart, root unseal, namespace unseal with old or new shares, read-back of the entries of the namespace and of the root namespace; histories (depth 2/3) over these operations, seal / unseal of the namespace, write and restart with a restarted copy probed after every step. S: every interleaving (storage-operation and contended-lock points, bound 2/3; lock-level points with one preemption) of the periodic auto-rotate check, key rotation, root-key rotation and a write, followed by a write, a restart and a read-back of everything',
+         'unseals on a new node with the currently valid shares. HA part A: the same pair with a stored-key (auto-unseal style) seal, histories (depth 3/4) over write / rotate / rotate-root / fail-over / restart / step-down. HA part N: every history (depth 3/4) that addresses a namespace with its own (3,3) Shamir seal (write, encryption-key rotation, share-less root rotation, share-based root rotation to (5,2) of THAT namespace) mixed with root-level writes / root rotation and every kind of leadership change: the node that takes over or restarts must complete the upgrade path, unseal the namespace with the shares its operator holds and read everything back. NS (Core level, per-namespace barrier): crash after every durable write and every single storage fault inside <ns>/sys/rotate, <ns>/sys/rotate/root and <ns>/sys/rotate/root/init+update, restart, root unseal, namespace unseal with old or new shares, read-back of the entries of the namespace and of the root namespace; histories (depth 2/3) over these operations, seal / unseal of the namespace, write and restart with a restarted copy probed after every step. S: every interleaving (storage-operation and contended-lock points, bound 2/3; lock-level points with one preemption) of the periodic auto-rotate check, key rotation, root-key rotation and a write, followed by a write, a restart and a read-back of everything',
  'assumptions': ['Seal()/RotateRootKey on an already sealed barrier are not driven (Core never calls them sealed)',
                  'Core crash runs obtain the would-be new shares from a fault-free pass (deterministic crypto/rand '
                  'seam)'],
